@@ -593,6 +593,7 @@ class GLRParser(Parser):
         error = self.errors[-1]
         debug = self.debug
         self._active_heads = {}
+        resumed_at = None
         for head in self._last_shifted_heads:
             if debug:
                 input_str = head.input_str
@@ -615,7 +616,12 @@ class GLRParser(Parser):
                 successful = self.error_recovery(head, error, self.default_error_recovery)
 
             if successful:
-                error.location.end_position = head.position
+                # Heads may resume at different positions. The error ends
+                # where the first of them continues, otherwise the span would
+                # overlap what the other heads parse (and their later errors).
+                if resumed_at is None or head.position < resumed_at:
+                    resumed_at = head.position
+                error.location.end_position = resumed_at
                 if debug:
                     a_print(
                         "New position is ",
